@@ -106,6 +106,32 @@ PROPS = {
                 "entries, exits at every level), mixed with submissions; continuation operations follow every fault",
         "assumptions": ["exceptions derive from std::exception; no_exception_thrown is not configured"],
     },
+    "C09": {
+        "profile": "pseudo", "n_quick": 5, "n_thorough": 40, "nops": 18, "nlists": 3, "cfgs": SIX,
+        "corpus": ["exitpt_outside"],
+        "monitor": None,
+        "relevant": M.relevant_by(M.proj(M.ALL, keep_res=True, keep_snap=True, keep_ev=True)),
+        "rule": "machines whose submachines have explicit-entry states, forks, entry and exit pseudo states (rows generated "
+                "for each of them in the enclosing machine), under every history policy; the corpus machine sends the exit "
+                "point's event from outside while the exit point is not active",
+        "assumptions": CORE_ASSUME + ["back11: machines with exit points are skipped (the library does not compile them)"],
+    },
+    "C17": {
+        "profile": "flags", "n_quick": 5, "n_thorough": 40, "nops": 16, "nlists": 3, "cfgs": SIX,
+        "monitor": None,
+        "relevant": M.relevant_by(lambda b: [l for l in b if l.startswith("FLAG") or l.startswith("SNAP")]),
+        "rule": "machines with user flags on simple states, submachine states and substates; after every operation "
+                "is_flag_active<F>() and is_flag_active<F, AND>() of the root are compared for every flag",
+        "assumptions": CORE_ASSUME,
+    },
+    "C18": {
+        "profile": "events", "n_quick": 5, "n_thorough": 40, "nops": 16, "nlists": 3, "cfgs": ["back", "mp11", "back_fct", "mp11_fct", "mp11_fpa", "back11"],
+        "monitor": None,
+        "relevant": M.relevant_by(M.proj(M.ALL, keep_res=True, keep_snap=True, keep_ev=True)),
+        "rule": "machines mixing exact, base-class (one derived event type) and Kleene triggers; every event type of the "
+                "hierarchy is sent; the event type and payload seen by every behaviour are compared",
+        "assumptions": CORE_ASSUME + ["Kleene / base-class triggers are exercised under back and backmp11 flat_fold; for favor_compile_time, function_pointer_array and back11 (which do not honour or do not compile them) the same machines run with the Kleene triggers replaced and the event hierarchy flattened"],
+    },
     "C19": {
         "profile": "nest", "n_quick": 3, "n_thorough": 16, "nops": 14, "nlists": 3,
         "cfgs": POL("back") + POL("back11") + POL("mp11") + ["back_fct:p1", "back_fct:p2", "mp11_fct:p3", "mp11_fct:p1", "mp11_fpa:p2"],
